@@ -68,9 +68,11 @@ var _ uuid.UUID
 //@ ensures [items] itemsOK(h, len(qs(h)))
 //@ ensures [tail] forall k int :: n <= k ==> qs(h)[k] == old(qs(h)[k])
 //@ ensures [above] forall k int :: k < i0 ==> qs(h)[k] == old(qs(h)[k])
+//@ ensures [C19 same-items] forall k int :: 0 <= k && k < n ==> exists j int :: 0 <= j && j < n && qs(h)[k] == old(qs(h)[j])
 //@ modifies mem(qs(h))
 //@ writesvia mem_ PriorityQueue).Swap
 //@ loop 1
+//@ invariant [C19 same-items] forall k int :: 0 <= k && k < n ==> exists j int :: 0 <= j && j < n && qs(h)[k] == old(qs(h)[j])
 //@ invariant [range] i00 <= i && i <= n
 //@ invariant [items] itemsOK(h, len(qs(h)))
 //@ invariant [rest] forall c int :: 0 < c && c < n && (c-1)/2 >= i00 && (c-1)/2 != i ==> edgeOK(h, c)
@@ -91,9 +93,11 @@ var _ uuid.UUID
 //@ ensures [heap] heapOK(h, len(qs(h)))
 //@ ensures [items] itemsOK(h, len(qs(h)))
 //@ ensures [outside] forall k int :: k > j ==> qs(h)[k] == old(qs(h)[k])
+//@ ensures [C19 same-items] forall k int :: 0 <= k && k < len(qs(h)) ==> exists m int :: 0 <= m && m < len(qs(h)) && qs(h)[k] == old(qs(h)[m])
 //@ modifies mem(qs(h))
 //@ writesvia mem_ PriorityQueue).Swap
 //@ loop 1
+//@ invariant [C19 same-items] forall k int :: 0 <= k && k < len(qs(h)) ==> exists m int :: 0 <= m && m < len(qs(h)) && qs(h)[k] == old(qs(h)[m])
 //@ invariant [range] 0 <= j && j <= j0
 //@ invariant [items] itemsOK(h, len(qs(h)))
 //@ invariant [rest] forall c int :: 0 < c && c < len(qs(h)) && c != j ==> edgeOK(h, c)
@@ -125,6 +129,7 @@ var _ uuid.UUID
 //@ ensures [len] len(qs(h)) == old(len(qs(h))) + 1
 //@ ensures [fresh-or-inplace] qs(h).ref == old(qs(h).ref) || fresh(qs(h))
 //@ ensures [inplace-window] qs(h).ref == old(qs(h).ref) ==> qs(h).off == old(qs(h).off) && forall k int :: k > old(len(qs(h))) ==> qs(h)[k] == old(qs(h)[k])
+//@ ensures [C19 old-items-or-the-new-one] forall k int :: 0 <= k && k < len(qs(h)) ==> qs(h)[k] == x.(*PriorityQueueItem) || exists m int :: 0 <= m && m < old(len(qs(h))) && qs(h)[k] == old(qs(h)[m])
 //@ modifies cell(h.(*minPriorityQueue)), cell(h.(*maxPriorityQueue)), mem(qs(h))
 
 //@ func container/heap.Pop
@@ -137,6 +142,7 @@ var _ uuid.UUID
 //@ ensures [root] istype(ret, *PriorityQueueItem) && ret.pay == old(qs(h)[0]) && qP(ret.(*PriorityQueueItem))
 //@ ensures [samearray] qs(h).ref == old(qs(h).ref) && qs(h).off == old(qs(h).off)
 //@ ensures [outside] forall k int :: k >= old(len(qs(h))) ==> qs(h)[k] == old(qs(h)[k])
+//@ ensures [C19 rest-are-old-items] forall k int :: 0 <= k && k < len(qs(h)) ==> exists m int :: 0 < m && m < old(len(qs(h))) && qs(h)[k] == old(qs(h)[m])
 //@ modifies cell(h.(*minPriorityQueue)), cell(h.(*maxPriorityQueue)), mem(qs(h))
 
 // the root of a heap is extremal (strong induction on k; the step is discharged by SMT)
@@ -164,6 +170,7 @@ var _ uuid.UUID
 //@ ensures [wf] wfpq(pq)
 //@ ensures [len] len(qs(pq.queue)) == old(len(qs(pq.queue))) + 1
 //@ ensures [fresh-or-inplace] qs(pq.queue).ref == old(qs(pq.queue).ref) || fresh(qs(pq.queue))
+//@ ensures [C19 old-items-or-the-new-one] forall k int :: 0 <= k && k < len(qs(pq.queue)) ==> qs(pq.queue)[k] == item || exists m int :: 0 <= m && m < old(len(qs(pq.queue))) && qs(pq.queue)[k] == old(qs(pq.queue)[m])
 //@ modifies cell(pq.queue.(*minPriorityQueue)), cell(pq.queue.(*maxPriorityQueue)), mem(qs(pq.queue))
 
 //@ func (*utils.priorityQueue).Pop
@@ -177,6 +184,7 @@ var _ uuid.UUID
 //@ ensures [root] ret == old(qs(pq.queue)[0]) && ret != nil && qP(ret)
 //@ ensures [samearray] qs(pq.queue).ref == old(qs(pq.queue).ref) && qs(pq.queue).off == old(qs(pq.queue).off)
 //@ ensures [extremal] forall k int :: 0 <= k && k < old(len(qs(pq.queue))) ==> old(!hless(pq.queue, k, 0))
+//@ ensures [C19 rest-are-old-items] forall k int :: 0 <= k && k < len(qs(pq.queue)) ==> exists m int :: 0 < m && m < old(len(qs(pq.queue))) && qs(pq.queue)[k] == old(qs(pq.queue)[m])
 //@ uselemma old rootIsExtremal(pq.queue, len(qs(pq.queue)))
 //@ modifies cell(pq.queue.(*minPriorityQueue)), cell(pq.queue.(*maxPriorityQueue)), mem(qs(pq.queue))
 
